@@ -269,6 +269,8 @@ func C10(c *Ctx) {
 	c.R.Rule("C10-R2", "E1", "caller's bindings (any depth) and props map never reachable from values given to the runtime", 1)
 	c.R.Rule("C10-R3", "E1", "Exec writes nothing shared (receiver, parameters, globals)", 5)
 	c.shareRule("C06", "C06-R4", "C10-R5", "the wrapper every action and guard runs through keeps nothing between executions (nothing of one execution is visible to a later or concurrent one)")
+	c.R.Rule("C10-R6", "E6", "step properties hold scalars or structures made for the call, no references into host-owned data", 3)
+	c10PropsValues(c, "C10-R6")
 	c.R.Rule("C10-R4", "E5", "a host makes the step properties for each walk", 1)
 	c10HostProps(c)
 	a, exec := c.ecmaAnalysis()
